@@ -361,7 +361,7 @@ def check_impl(ctx, cls_q: str, which: set[str]) -> None:
                         S.problems.clear()
                         got = S.space(e.value, K, p, e.ncond)
                         ok = got in (SITE, NEUTRAL) and not S.problems
-                        ctx.ob("PERM-sink", f"{e.func.qualname}|{util.text(e.node, 70)}", e.loc(), ok,
+                        ctx.ob("PERM-sink", f"{e.func.qualname}|{util.akey(e.node, e.func, 70)}", e.loc(), ok,
                                f"the state stored as self.state is {got}-ordered" if ok else
                                f"self.state = {show(e.value)[:140]} is {got}-ordered; the Hamiltonian it evolves "
                                f"under is site-ordered" + "".join("; " + d for _, _, d in S.problems),
